@@ -132,7 +132,7 @@ fn exec(c: &Case) -> Vec<String> {
         }));
         let _ = tx.send(res);
     });
-    match rx.recv_timeout(Duration::from_secs(20)) {
+    match rx.recv_timeout(Duration::from_secs(20 * nvh::load_factor() as u64)) {
         Ok(Ok(rs)) => {
             let mut lines: Vec<String> =
                 rs.into_iter().map(|(k, items)| format!("{}", Val::pair(Val::Int(k), Val::List(items)))).collect();
